@@ -2,6 +2,7 @@ From Coq Require Import List Arith.
 Import ListNotations.
 From UJ Require Import Engine.Engine Engine.EngineInv Engine.EngineTermInv Engine.EngineComplete.
 From UJ Require Import Base.Graph Cache.Prune Cache.PruneProofs Engine.Queues Engine.QueuesProofs.
+From UJ Require Import Cache.EndToEnd.
 
 (** In any run - successful or not, any interleaving - no call is started more than once. *)
 Theorem C04_at_most_once :
@@ -57,3 +58,16 @@ Theorem C04_random_queue_get :
   rq_get l = Some (x, l') -> In x l /\ Permutation.Permutation (x :: l') l.
 Proof. exact @rq_get_spec. Qed.
 Print Assumptions C04_random_queue_get.
+
+(** End to end, without a registry: a successful run executes exactly the calls the requested output
+    transitively depends on, each exactly once, and no other call of the plan. *)
+Theorem C04_plan_run_exact :
+  forall (p : pgraph) (output : option nat) (c : cfg) (s : st),
+  pgraph_wf p -> acyclic (to_graph p) ->
+  g c = to_graph (run_graph p output) -> 1 <= workers c ->
+  reachable c s -> final s -> result s = Some Returned ->
+  forall n, In n (pnodes p) -> is_lit p n = false ->
+    ((output = Some n \/ exists o, output = Some o /\ reach (to_graph p) n o) -> count_ev (EStart n) (hist s) = 1) /\
+    (~ (output = Some n \/ exists o, output = Some o /\ reach (to_graph p) n o) -> count_ev (EStart n) (hist s) = 0).
+Proof. exact plan_run_exact. Qed.
+Print Assumptions C04_plan_run_exact.
